@@ -137,6 +137,9 @@ class Freshness:
                     if base == 'FRESH' and isinstance(f.value, ast.Name) and f.value.id in self.fresh_params:
                         return 'RAW'     # an element of *args / **kwargs is the caller's object
                     return 'RAW' if base == 'RAW' else ('FRESH' if f.attr in ('items', 'keys', 'values') and base == 'FRESH' else 'OTHER')
+                if _private(f.attr) and _own_pure_helper(self.model, self.func, f.value, f.attr):
+                    # a private accessor of the value's own class: what it returns may be a part of the value
+                    return self.classify(f.value, n, depth + 1)
             if isinstance(f, ast.Name) and f.id in ('next', 'iter') and e.args:
                 return self.classify(e.args[0], n, depth + 1)
             if isinstance(f, ast.Name) and f.id in ('vars', 'getattr') and e.args and not self.rd.is_local(f.id):
@@ -210,6 +213,8 @@ def rule_c09_r1(model: Model) -> RuleResult:
                 k = fr.classify(recv, n)
                 if k != 'RAW' and _private(what.strip('.()')):
                     continue       # private helpers of the converter itself
+                if _private(what.strip('.()')) and _own_pure_helper(model, f, recv, what.strip('.()')):
+                    continue       # a private accessor of the value's own class that writes nothing to it
                 r.instances += 1
                 r.sample({'function': f.qualname, 'operation': what, 'receiver': unparse(recv), 'class': k})
                 if k == 'RAW':
@@ -219,6 +224,32 @@ def rule_c09_r1(model: Model) -> RuleResult:
                 else:
                     r.ok()
     return r
+
+
+def _own_pure_helper(model: Model, f: FuncInfo, recv: ast.AST, name: str) -> bool:
+    """``self._helper()`` inside a method of the same class, where the helper (read from the model) applies no mutating
+    operation to anything rooted at ``self`` and calls no further private method on it."""
+    if not (isinstance(recv, ast.Name) and recv.id == 'self' and f.cls is not None):
+        return False
+    m = model.find_method(f.cls.qualname, name)
+    if m is None or not isinstance(m.node, ast.FunctionDef):
+        return False
+    for sub in ast.walk(m.node):
+        tgts: t.List[ast.AST] = []
+        if isinstance(sub, (ast.Assign, ast.Delete)):
+            tgts = list(sub.targets)
+        elif isinstance(sub, (ast.AugAssign, ast.AnnAssign)):
+            tgts = [sub.target]
+        for tg in tgts:
+            for x in ast.walk(tg):
+                if isinstance(x, (ast.Attribute, ast.Subscript)):
+                    return False
+        if isinstance(sub, ast.Call) and isinstance(sub.func, ast.Attribute) and (sub.func.attr in MUTATORS or _private(sub.func.attr)
+                                                                                   or sub.func.attr in ('__setattr__', '__delattr__')):
+            return False
+        if isinstance(sub, ast.Call) and isinstance(sub.func, ast.Name) and sub.func.id in ('setattr', 'delattr'):
+            return False
+    return True
 
 
 def _mutations(n: Node, private: bool = False) -> t.List[t.Tuple[str, ast.AST, ast.AST]]:
